@@ -612,8 +612,10 @@ pub fn check_motoko(ctx: &mut Ctx, pc: &ProgramCase, out: &str, input: &dyn Fn()
 
 pub fn check_rust(ctx: &mut Ctx, pc: &ProgramCase, target: &str, out: &str, input: &dyn Fn() -> Value) {
     // define_service! gets method names as string literals: a name that needs escaping must not appear raw
+    // (a raw name can coincide with the *escaped* form of another label, e.g. `\"` next to `"`: not a witness)
+    let escaped_forms: std::collections::HashSet<String> = pc.method_labels.iter().map(|l| l.escape_debug().to_string()).collect();
     for m in &pc.method_labels {
-        if m.chars().any(|c| c == '"' || c == '\\' || c == '\r') && out.contains(&format!("\"{m}\" :")) {
+        if m.chars().any(|c| c == '"' || c == '\\' || c == '\r') && !escaped_forms.contains(m) && out.contains(&format!("\"{m}\" :")) {
             ctx.violation(
                 "rust|define_service-method-name-not-escaped",
                 &format!(
